@@ -941,7 +941,11 @@ class Message(ABC):
             value = self.__raw_get(name)
             if value is not PLACEHOLDER:
                 kwargs[name] = deepcopy(value)
-        return self.__class__(**kwargs)  # type: ignore
+        new = self.__class__(**kwargs)  # type: ignore
+        # State that is not determined by the field values alone.
+        new.__dict__["_unknown_fields"] = self._unknown_fields
+        new.__dict__["_serialized_on_wire"] = self._serialized_on_wire
+        return new
 
     def __copy__(self: T, _: Any = {}) -> T:
         kwargs = {}
@@ -949,7 +953,11 @@ class Message(ABC):
             value = self.__raw_get(name)
             if value is not PLACEHOLDER:
                 kwargs[name] = value
-        return self.__class__(**kwargs)  # type: ignore
+        new = self.__class__(**kwargs)  # type: ignore
+        # State that is not determined by the field values alone.
+        new.__dict__["_unknown_fields"] = self._unknown_fields
+        new.__dict__["_serialized_on_wire"] = self._serialized_on_wire
+        return new
 
     @classproperty
     def _betterproto(cls: type[Self]) -> ProtoClassMetadata:  # type: ignore
